@@ -1,9 +1,16 @@
-"""C07 — task scheduler runs every task exactly once, never early, in time order."""
+"""C07 — task scheduler runs every task exactly once, never early, in time order.
+
+Op `stale_link T<k>` (harness only): the task's intrusive list node is linked into a scratch list which is then
+re-initialised without popping, so the node keeps STALE next/prev links (what a caller-owned hand-off list leaves behind).
+Task nodes are not part of the model's abstract state (list MEMBERSHIP is), so the op is a no-op on the model; the property
+says such a task, once scheduled, is still invoked exactly once.
+A second stage runs a slice of the cases against the -DDEBUG_BUILD flavour of the whole library (extra_stages)."""
 import itertools
 from collections import Counter
 import os
 from lib.core import Case, GenError, write_if_changed, LEAN
-from lib import cbuild
+from lib import cbuild, core
+import json
 from gen import heap_gen, cfun
 
 def regen(ctx):
@@ -300,11 +307,11 @@ def _ts_pool(rng, n):
     return [rng.choice([0, 0, 1, MAX, MAX - 1, 50]) for _ in range(n)]
 
 
-def gen_heap_case(rng):
+def gen_heap_case(rng, min_tasks=6):
     """many timed tasks pending at once (6..15): cancels of tasks sitting anywhere in the heap (root, interior, leaf,
     last slot) interleaved with run_all calls that make only some of them due and with re-schedules; has_tasks / next
     time is observed after every op, the order of the runs by the log"""
-    nt = rng.randint(6, 15)
+    nt = rng.randint(min_tasks, 15)
     ops = [f"init {nt}"]
     if rng.random() < 0.15:
         ops.append("failmode 1")
@@ -319,6 +326,8 @@ def gen_heap_case(rng):
             continue
         if fail and rng.random() < 0.5:
             ops.append("failmode 0"); fail = False
+        if rng.random() < 0.25:
+            ops.append(f"stale_link T{t}")
         ops.append(f"sched_future T{t} {_fmt_ts(ts[t])}")
         pending[t] = ts[t]
     if fail:
@@ -347,6 +356,8 @@ def gen_heap_case(rng):
                 u = rng.choice(free)
                 v = rng.choice(list(pending.values()) + [rng.choice(ts)]) if pending else rng.choice(ts)
                 v = max(0, min(MAX, v + rng.choice([-1, 0, 0, 1])))
+                if rng.random() < 0.3:
+                    ops.append(f"stale_link T{u}")
                 ops.append(f"sched_future T{u} {_fmt_ts(v)}")
                 pending[u] = v
         else:
@@ -405,6 +416,60 @@ def gen_cases(rng, tier):
     if tier == "thorough":
         cases += exhaustive_cases(5)
     return cases
+
+
+def debug_cases(rng, tier):
+    """slice for the -DDEBUG_BUILD flavour: 9..15 timed tasks pending at once (the timed queue's element array grows
+    past its initial 7 slots, its handle array past its first), cancels, partial run_alls, clean-up; plus scripted cases"""
+    n = 300 if tier == "quick" else 4000
+    out = [gen_heap_case(rng, min_tasks=9) for _ in range(n)]
+    out += [gen_case(rng, rng.choice([20, 40])) for _ in range(n // 3)]
+    for c in out:
+        c.tags["debug"] = True
+    return out
+
+
+def _debug_exe(ctx):
+    try:
+        return cbuild.build_harness(**dict(HARNESS, flavour="debug"))
+    except cbuild.BuildError as e:
+        ctx.machinery_broken("debug-flavour build: " + str(e)[:2000])
+        return None
+
+
+def extra_stages(ctx):
+    """second configuration: the whole library with -DDEBUG_BUILD (cbuild flavour `debug`, ASan/UBSan): the DEBUG-only code
+    of array_list (poison fills on growth / clear) runs under the scheduler's timed queue and every AWS_PRECONDITION /
+    AWS_POSTCONDITION aborts.  Same op language, same model, same oracle; a crash is a concrete violation."""
+    exe = _debug_exe(ctx)
+    if exe is None:
+        return
+    cases = debug_cases(ctx.rng, ctx.tier)
+    keep = ctx.cov.get("distribution")
+    first = len(ctx.violations)
+    core.correspondence_stage(ctx, cases, exe)
+    if keep is not None:
+        ctx.cov["distribution"] = keep
+    ctx.cov["debug_build_cases"] = len(cases)
+    for name, text, path, no_input in ctx.violations[first:]:
+        try:
+            r = json.load(open(path))
+        except Exception:
+            continue
+        if "ops" in r:
+            r["debug_ops"] = r.pop("ops")
+        r["flavour"] = "debug (-DDEBUG_BUILD library, ASan/UBSan)"
+        with open(path, "w") as f:
+            json.dump(r, f, indent=1)
+
+
+def replay(ctx, r):
+    if "debug_ops" not in r:
+        print(json.dumps(r, indent=1)[:3000])
+        return
+    exe = _debug_exe(ctx)
+    if exe is not None:
+        core.correspondence_stage(ctx, [Case(r["debug_ops"], r.get("tags"))], exe)
 
 
 # --------------------------------------------------------------------------------------------------------------
@@ -561,6 +626,10 @@ def oracle(case, lines):
                         raise OracleError(f"{why}: cancel of pending T{u} did not invoke it (next log entry: {ent})")
                     invoke(ent, "CANCELED", sp.now, [], why)
                 else:
+                    sp.skipped += 1
+            elif t[0] == "stale_link":
+                u = int(t[1][1:])
+                if u >= sp.nt or u in sp.pending:
                     sp.skipped += 1
             elif t[0] == "cancel_raw":
                 u = int(t[1][1:])
